@@ -322,9 +322,6 @@ theorem fromXA_likeExport (hf : f.WF) (h : LikeExport xe f c p q t uo)
       g.vmap = defaultVmap f.nvdim f.mesh.region.dims (vdimsAfter f) := by
   obtain ⟨d1, hd1, ha1⟩ := asArray_same (valOf xe f.nvdim) f.mesh.n f.nvdim ((valOf_like hf h).1.trans hf.shape)
   obtain ⟨d2, hd2, ha2⟩ := asArray_same d1 f.mesh.n f.nvdim (ha1.1.trans ((valOf_like hf h).1.trans hf.shape))
-  have hmap : ¬ (f.nvdim ≠ 1 ∧ f.nvdim = (meshAfter f t uo).region.dims.length ∧ vdimsAfter f = none) := by
-    rintro ⟨h1, _, h3⟩
-    exact vdimsAfter_ne_none (by have := hf.nvdim; omega) h3
   refine ⟨{ mesh := meshAfter f t uo, nvdim := f.nvdim, data := d2, valid := NDA.const f.mesh.n true,
             vdims := vdimsAfter f, vmap := defaultVmap f.nvdim f.mesh.region.dims (vdimsAfter f),
             unit := none, dtype := f.dtype }, ?_, rfl, rfl, ha2.trans (ha1.trans (valOf_like hf h)), rfl, rfl, rfl, rfl, rfl⟩
@@ -341,7 +338,7 @@ theorem fromXA_likeExport (hf : f.WF) (h : LikeExport xe f c p q t uo)
   simp only []
   rw [vdimsSet_like hf h]
   simp only []
-  rw [if_neg hmap, h.dtype]
+  rw [h.dtype]
   rfl
 
 end
